@@ -23,6 +23,7 @@ from eliot import (  # noqa: E402
     write_traceback,
 )
 from eliot import _output  # noqa: E402
+from eliot import FileDestination  # noqa: E402
 from eliot import _errors as eliot_errors  # noqa: E402
 from eliot.testing import UnflushedTracebacks, capture_logging, check_for_errors, swap_logger  # noqa: E402
 
@@ -37,7 +38,8 @@ RULE = (
     "- drop a declared field; add an undeclared field whose name is random, or one of exception/reason/traceback/"
     "action_type/message_type/action_status, or a name declared by ANOTHER type or another phase of the same ActionType; "
     "a value of another class; a value the extra validator rejects; a wrong for_value constant; a value that is not JSON-"
-    "encodable (typed or untyped message) - must make validate() raise ValidationError or TypeError; extras on failed ends "
+    "encodable (typed or untyped message; an object of a foreign class, or a str/int the field accepts but eliot's own "
+    "FileDestination cannot encode: lone surrogate, int >= 2**64) - must make validate() raise ValidationError or TypeError; extras on failed ends "
     "and tracebacks (extractor fields) must be accepted; an unflushed traceback must make check_for_errors raise "
     "UnflushedTracebacks before any validation error. Facet capture: generated TestCase methods under capture_logging "
     "(log valid/invalid messages, leave or flush tracebacks, swap the logger themselves, then pass/fail/error/skip): after "
@@ -116,6 +118,29 @@ def bad_value(spec):
     return None
 
 
+def unencodable_scalar(spec):
+    """A value of a class the field accepts that eliot's own JSON output cannot encode (or None)."""
+    key, kind, param = spec
+    if kind in ("types", "shorthand"):
+        candidates = []
+        if "str" in param:
+            candidates.append("name-\udcff.txt")  # what os.fsdecode gives for undecodable bytes
+        if "int" in param:
+            candidates.append(2**70)
+    elif kind == "ser" and not param:
+        candidates = ["\udcff", 2**70]
+    else:
+        return None
+    from io import BytesIO
+
+    for v in candidates:
+        try:
+            FileDestination(file=BytesIO())({"task_uuid": "u", "task_level": [1], "timestamp": 1.0, key: v})
+        except Exception:
+            return v
+    return None
+
+
 class World(object):
     def __init__(self, case):
         self.types = []
@@ -158,6 +183,9 @@ def emit(world, index, deviation=None, fail=False, tb=False):
             elif kind == "bad":
                 spec = specs[arg % len(specs)]
                 kw[spec[0]] = bad_value(spec)
+            elif kind == "bad-scalar":
+                spec = specs[arg % len(specs)]
+                kw[spec[0]] = unencodable_scalar(spec)
         return kw
 
     if t["kind"] == "message":
@@ -190,6 +218,8 @@ def applicable(world, index, deviation):
         if kind == "bad" and bad_value(specs[arg % len(specs)]) is None:
             return False
         return True
+    if kind == "bad-scalar":
+        return bool(specs) and unencodable_scalar(specs[arg % len(specs)]) is not None
     if kind == "extra":
         if arg in [f[0] for f in specs]:
             return False
@@ -278,6 +308,13 @@ def check_deviation(case):
     phases = [ph for ph in ("fields", "start", "success") if ph in t0]
     if deviation[0] not in phases:
         deviation[0] = phases[len(str(dev)) % len(phases)]
+    if deviation[1] == "bad-scalar":
+        # aim at a field that has such a value, wherever it is
+        found = [(ph, i) for ph in phases for i, f in enumerate(t0[ph]) if unencodable_scalar(f) is not None]
+        if found:
+            deviation[0], deviation[2] = found[deviation[2] % len(found)]
+        else:
+            deviation = [None, "untyped-scalar", None]
     if deviation[1] in ("drop", "bad") and not applicable(world, idx, deviation):
         for ph in phases:
             if applicable(world, idx, [ph, deviation[1], deviation[2]]):
@@ -295,6 +332,9 @@ def check_deviation(case):
         deviation = [deviation[0], "extra", names[deviation[2] % len(names)]]
     elif deviation[1] == "untyped-unencodable":
         deviation = [None, "untyped", None]
+    elif deviation[1] == "untyped-scalar":
+        if unencodable_scalar(["value", "ser", 0]) is None:
+            return {"skipped": True}
     elif not applicable(world, idx, deviation):
         return {"skipped": True}
 
@@ -312,6 +352,8 @@ def check_deviation(case):
             emit(world, (idx + k) % len(world.types))
         if deviation[1] == "untyped":
             log_message(message_type="c14:untyped", value=Unencodable())
+        elif deviation[1] == "untyped-scalar":
+            log_message(message_type="c14:untyped", value=unencodable_scalar(["value", "ser", 0]))
         else:
             emit(world, idx, deviation)
         for k in range(case.get("after", 0)):
@@ -471,6 +513,7 @@ def deviation_strategy():
         st.tuples(st.integers(0, 2), st.sampled_from(["fields", "start", "success"]), st.just("extra"), extra_names),
         st.tuples(st.integers(0, 2), st.sampled_from(["fields", "start", "success"]), st.just("extra-foreign"), st.integers(0, 5)),
         st.tuples(st.integers(0, 2), st.just("fields"), st.just("untyped-unencodable"), st.just(0)),
+        st.tuples(st.integers(0, 2), st.sampled_from(["fields", "start", "success"]), st.just("bad-scalar"), st.integers(0, 5)),
     ).map(list)
     return st.builds(
         lambda warmup, before, after, dev, types: {"warmup": warmup, "before": before, "after": after, "deviation": dev, "types": types},
